@@ -64,7 +64,7 @@ impl Tgt {
     }
 }
 
-pub const CONTEXTS: &[&str] = &["stmt", "neg", "init", "initf", "arr", "enumv", "targ", "incl", "def", "paste"];
+pub const CONTEXTS: &[&str] = &["stmt", "neg", "init", "initf", "initneg", "enumcast", "arr", "enumv", "targ", "incl", "def", "paste"];
 
 /// nearest single to digits * 10^exp10 rounded directly (what `str::parse::<f32>` and `Display for f32` speak about)
 pub fn ref_nearest32_direct(digits: &[u8], exp10: i64) -> u32 {
@@ -177,6 +177,23 @@ fn build_program(ctx: &str, lit: &str, rng_split: usize) -> Result<Program, Stri
             }
             p.files = main(&format!("static const {} g_zq = {};\n", ty, lit));
         }
+        "initneg" => {
+            // a negative `int` constant (`ir::Constant::Int32(v) if v < 0` of generate_literal)
+            match &src {
+                RefNum::Int { value, kind: "Int" } if value.to_u64().is_some_and(|v| v <= 1 << 31) => {}
+                _ => return Err("initneg is for unsuffixed integers up to 2^31".into()),
+            }
+            p.negated = true;
+            p.files = main(&format!("static const int g_zq = -{};\n", lit));
+        }
+        "enumcast" => {
+            match &src {
+                RefNum::Int { value, .. } if value.to_u64().is_some_and(|v| v <= i32::MAX as u64) => {}
+                _ => return Err("enumcast is for integers inside int".into()),
+            }
+            p.want_kind = None;
+            p.files = main(&format!("enum E_zq {{ A_zq = 1, B_zq = 16 }};\nstatic const E_zq g_zq = (E_zq){};\n", lit));
+        }
         "initf" => {
             if kind != "Float" {
                 return Err("initf is for untyped float literals".into());
@@ -241,7 +258,12 @@ fn extract(ctx: &str, text: &str) -> Option<String> {
             let l = lines.get(i + 1)?.trim();
             Some(l.strip_suffix(';')?.to_string())
         }
-        "init" | "initf" => Some(after(" g_zq = ")?.trim().strip_suffix(';')?.to_string()),
+        "init" | "initf" | "initneg" => Some(after(" g_zq = ")?.trim().strip_suffix(';')?.to_string()),
+        "enumcast" => {
+            let t = after(" g_zq = ")?.trim().strip_suffix(';')?.to_string();
+            // a value that names an enumerator is printed by that name (not a literal: nothing to compare)
+            Some(t.strip_prefix("(E_zq)").map(|x| x.to_string()).unwrap_or(t))
+        }
         "arr" => {
             let r = after(" a_zq[")?;
             Some(r[..r.find(']')?].to_string())
@@ -331,6 +353,13 @@ fn reject_class(msg: &str) -> &'static str {
 /// must have the kind, the sign and the value of the source literal
 fn emit_oracle(lit: &str, printed: &str, tgt: Tgt, prog: &Program, hist: &mut Hist) -> String {
     let a = ref_numeric(lit.as_bytes());
+    if printed == "A_zq" || printed == "B_zq" || printed == "E_zq::A_zq" || printed == "E_zq::B_zq" {
+        // the constant equals an enumerator and is printed by name
+        return match &a {
+            RefNum::Int { value, .. } if value.to_u64() == Some(if printed.ends_with("A_zq") { 1 } else { 16 }) => "ok".into(),
+            _ => format!("FAIL:emit literal {} printed as the enumerator {}", lit, printed),
+        };
+    }
     let Some(b) = parse_printed(printed, tgt) else {
         return format!("FAIL:emit literal {} printed as {} which is not a numeric literal", lit, printed);
     };
@@ -518,6 +547,11 @@ pub fn run_fmt(tgt_s: &str, kind: &str, bits_s: &str, disp: &str, hist: &mut His
             if disp.starts_with('-') != sign {
                 fails.push(format!("Display {} has the wrong sign", disp));
             }
+            // a `.` exactly when the value is not a whole number (the arms of format_literal rely on it)
+            let whole = if wide { f64::from_bits(mag).fract() == 0.0 } else { f32::from_bits(mag as u32).fract() == 0.0 };
+            if whole == d.contains('.') {
+                fails.push(format!("Display {} of a {} value", disp, if whole { "whole" } else { "fractional" }));
+            }
         }
     }
     // (2) the printed text read by the real lexer
@@ -570,6 +604,52 @@ pub fn run_fmt(tgt_s: &str, kind: &str, bits_s: &str, disp: &str, hist: &mut His
     }
     let orc = if fails.is_empty() { "ok".to_string() } else { format!("FAIL:fmt {}", fails[0]) };
     (printed, orc)
+}
+
+/// `C10.sweep32 \t <stride> \t <offset>`: every finite non-negative single `offset + k * stride`: its `Display` digits,
+/// read the way the lexer reads a literal (`str::parse::<f64>` — `calculate_float64_from_parts` — then `as f32`), must
+/// be the value again. Observation: the bit patterns for which they are not.
+pub fn run_sweep32(stride: u32, offset: u32) -> (String, String) {
+    if stride == 0 {
+        return (String::new(), "SKIP:bad request".into());
+    }
+    let threads = 4u32;
+    let mut bad: Vec<(u32, String, u32)> = Vec::new();
+    std::thread::scope(|sc| {
+        let hs: Vec<_> = (0..threads)
+            .map(|t| {
+                sc.spawn(move || {
+                    use std::fmt::Write;
+                    let mut out = Vec::new();
+                    let mut s = String::new();
+                    let mut b = offset as u64 + t as u64 * stride as u64;
+                    while b < 0x7f80_0000 {
+                        let v = f32::from_bits(b as u32);
+                        s.clear();
+                        let _ = write!(s, "{}", v);
+                        let back = s.parse::<f64>().map(|d| (d as f32).to_bits()).unwrap_or(u32::MAX);
+                        if back != b as u32 {
+                            out.push((b as u32, s.clone(), back));
+                        }
+                        b += stride as u64 * threads as u64;
+                    }
+                    out
+                })
+            })
+            .collect();
+        for h in hs {
+            if let Ok(v) = h.join() {
+                bad.extend(v);
+            }
+        }
+    });
+    bad.sort();
+    let obs = bad.iter().map(|(b, _, _)| format!("{:08x}", b)).collect::<Vec<_>>().join(",");
+    let orc = match bad.first() {
+        None => "ok".to_string(),
+        Some((b, s, back)) => format!("FAIL:fmt Float32 {:x} printed as {}f lexes as {:x}", b, s, back),
+    };
+    (obs, orc)
 }
 
 // ------------------------------------------------------------------------------------------------
@@ -689,7 +769,7 @@ pub fn generate(args: &Args, rng: &mut Rng, out: &mut Out, hist: &mut Hist) -> (
         tries += 1;
         let lit = gen_emit_literal(rng, hist);
         let tgt = *rng.pick(&[Tgt::Dx, Tgt::Dx, Tgt::Msl, Tgt::Msl, Tgt::Vk]);
-        let ctx = *rng.pick(&["stmt", "stmt", "stmt", "neg", "init", "initf", "arr", "enumv", "targ", "incl", "def", "paste"]);
+        let ctx = *rng.pick(&["stmt", "stmt", "stmt", "neg", "init", "initf", "initneg", "enumcast", "arr", "enumv", "targ", "incl", "def", "paste"]);
         let field = format!("{}.{}", tgt.name(), ctx);
         let (obs, orc) = run_emit(&field, &lit, hist);
         if orc.starts_with("SKIP:") && !orc.starts_with("SKIP:rejected") {
@@ -737,6 +817,13 @@ pub fn generate(args: &Args, rng: &mut Rng, out: &mut Out, hist: &mut Hist) -> (
         let disp = display_of(kind, bits);
         let (obs, orc) = run_fmt(tgt.name(), kind, &format!("{:x}", bits), &disp, hist);
         out.case(&format!("C10.fmt\t{}\t{}\t{:x}\t{}", tgt.name(), kind, bits, disp), &obs, &orc);
+    }
+    // (5b) all singles (thorough) or every 61st (quick): Display digits read back through the double
+    let (stride, offset) = if args.thorough() { (1u32, 0u32) } else { (61, rng.below(61) as u32) };
+    if args.n.is_none() {
+        let (obs, orc) = run_sweep32(stride, offset);
+        out.case(&format!("C10.sweep32\t{}\t{}", stride, offset), &obs, &orc);
+        hist.add("fmt.sweep32");
     }
     (emitted, n_fmt)
 }
